@@ -302,15 +302,25 @@ class Origin:
     """responder: async callable (req, oconn) -> None; it writes the response itself. Returns False/None to keep the
     connection open for the next request, True to stop serving this connection."""
 
-    def __init__(self, rec, responder, name='o'):
+    def __init__(self, rec, responder, name='o', stall=0.0, rcvbuf=None):
+        """stall: seconds an accepted connection is left unread (back pressure on the sender); rcvbuf: SO_RCVBUF of the
+        listening socket (inherited by accepted connections)"""
         self.rec, self.responder, self.name = rec, responder, name
+        self.stall, self.rcvbuf = stall, rcvbuf
         self.server = None
         self.port = None
         self.nconn = 0
         self.arrivals = []        # list of Req in arrival order
 
     async def start(self, host='127.0.0.1'):
-        self.server = await asyncio.start_server(self._conn, host, 0, limit=1 << 22)
+        if self.rcvbuf:
+            ls = socket.socket(socket.AF_INET, socket.SOCK_STREAM)
+            ls.setsockopt(socket.SOL_SOCKET, socket.SO_REUSEADDR, 1)
+            ls.setsockopt(socket.SOL_SOCKET, socket.SO_RCVBUF, self.rcvbuf)
+            ls.bind((host, 0))
+            self.server = await asyncio.start_server(self._conn, sock=ls, limit=1 << 22)
+        else:
+            self.server = await asyncio.start_server(self._conn, host, 0, limit=1 << 22)
         self.port = self.server.sockets[0].getsockname()[1]
         return self
 
@@ -324,6 +334,13 @@ class Origin:
             pass
         oc = OConn(self, reader, writer, cid)
         self.rec.add('OAccept', oc=cid, origin=self.name)
+        if self.stall:
+            try:
+                writer.transport.pause_reading()
+                await asyncio.sleep(self.stall)
+                writer.transport.resume_reading()
+            except (RuntimeError, AttributeError):
+                pass
         try:
             while not oc.closed:
                 q = await read_request(reader)
